@@ -146,6 +146,15 @@ type Fresh struct {
 }
 
 func (p *Program) Freshness() *Fresh {
+	if p.fresh != nil {
+		return p.fresh
+	}
+	f := p.newFreshness()
+	p.fresh = f
+	return f
+}
+
+func (p *Program) newFreshness() *Fresh {
 	f := &Fresh{P: p, retFresh: map[*ssa.Function]int{}, freshParams: map[*ssa.Function]map[int]bool{}}
 	// fresh parameters: fixpoint over the call graph, optimistic start for non-exported helpers
 	for _, fn := range p.Funcs {
